@@ -267,6 +267,47 @@ def check_getcallouts_progress(rep, prog):
               "read (constant or missing increment): callouts are skipped or the walk overruns", node=L.node)
 
 
+def exact_section_count_loop(L):
+    """does loop L run exactly (PH section count byte @27) - 2 times, with no data-dependent early stop? -> (ok, why)"""
+    trip_ok, why = False, ""
+    cnt = IntF(27, 1)
+    if L.kind == "for":
+        trip_ok, env, _ = equivalent(subst_guarded(L.trip), sub(cnt, Const(2)))
+        why = "loop runs %r times" % (L.trip,)
+    else:
+        # while-loop driven by a down/up counter: exactly count-2 iterations and no other (data-dependent) stop condition
+        trip_ok, why = False, "while loop %r is not a pure counter over the declared section count" % (L.cond,)
+        from ..terms import evaluate
+        conds = list(L.cond.args) if isinstance(L.cond, Op) and L.cond.op == "and" else [L.cond]
+        counters = {}
+        for k, (init, nxt, d, w) in L.carried.items():
+            for x in walk(L.cond):
+                if isinstance(x, Sym) and x.kind == "loopvar" and x.name.endswith(":" + k) and d is not None and is_int(d):
+                    counters[x] = (init, d.v)
+        mine = [c for c in conds if any(x == L.idx or x in counters for x in walk(c)) and
+                not any(pelx.as_slice(x) is not None and not (is_int(pelx.as_slice(x)[0]) and pelx.as_slice(x)[0].v == 27) for x in walk(c))]
+        extra = [c for c in conds if c not in mine]
+        okc = bool(mine)
+        for total in (0, 1, 2, 3, 7, 253):
+            for j in range(0, total + 2):
+                env = {L.idx: j, cnt: total + 2}
+                try:
+                    for x, (init, dv) in counters.items():
+                        env[x] = evaluate(subst_guarded(init), {cnt: total + 2}) + j * dv
+                    c_val = evaluate(subst_guarded_all(and_(*mine)), env)
+                except Exception:
+                    okc = False
+                    break
+                if bool(c_val) != (j < total):
+                    okc = False
+        if okc and not extra:
+            trip_ok = True
+        elif okc and extra:
+            why = "the section loop also stops when %r: a log cut at a section boundary is accepted as complete, its missing sections " \
+                  "silently dropped" % (and_(*extra),)
+
+    return trip_ok, why
+
 def check_loop(rep, prog, pfx="C01"):
     """parsePEL / parsePELSummary: PH, UH once each before the loop; per iteration exactly one parseHeader,
     one sectionFun fed with the header fields in order and the PH creator id, one append"""
@@ -282,19 +323,17 @@ def check_loop(rep, prog, pfx="C01"):
         rep.check(seq[:2] == ["generatePH", "generateUH"] and seq.count("generatePH") == 1 and seq.count("generateUH") == 1,
                   pfx + ".R2.once", "%s decodes PH then UH exactly once before the optional sections" % fn, where,
                   fn, "PH/UH are not decoded once each, in that order, first: %s" % seq)
-        loops = [L for L in I.loops.values() if L.func == PT + fn]
-        if len(loops) != 1:
-            rep.fail(pfx + ".R2.once", where, fn, "expected one loop over the optional sections, found %d" % len(loops))
+        sfs = [e for e in I.events if e.kind == "opaquecall" and e.data[0] == PT + "sectionFun" and e.func == PT + fn]
+        if not sfs or not sfs[0].loops:
+            rep.fail(pfx + ".R2.once", where, fn, "the optional sections are not decoded inside a loop over the declared section count")
             continue
-        L = loops[0]
-        cnt = IntF(27, 1)
-        trip_ok, env, _ = equivalent(subst_guarded(L.trip), sub(cnt, Const(2)))
-        rep.check(trip_ok, pfx + ".R2.once", "%s iterates sectionCount-2 times (count byte @27 of the PH)" % fn, where,
-                  L.node, "optional-section loop runs %r times, the private header declares byte@27 - 2 sections" % (L.trip,),
-                  node=L.node)
+        L = sfs[0].loops[-1]
+        trip_ok, why = exact_section_count_loop(L)
+        rep.check(trip_ok, pfx + ".R2.once", "%s iterates exactly sectionCount-2 times (count byte @27 of the PH), no data-dependent early stop" % fn, where,
+                  L.node, "the optional-section loop does not run exactly (byte@27 - 2) times: %s" % why, node=L.node)
         body = I.events[L.events[0]:L.events[1]]
         hdr = [e for e in body if e.kind == "call" and e.data[0] == PT + "parseHeader"]
-        sf = [e for e in body if e.kind == "opaquecall" and e.data[0] == PT + "sectionFun"]
+        sf = [e for e in body if e.kind == "opaquecall" and e.data[0] == PT + "sectionFun" and e.func == PT + fn]
         g0 = L.body_guard
         one = len(hdr) == 1 and len(sf) == 1 and hdr[0].seq < sf[0].seq and hdr[0].guard == g0 and \
             strip_assume(sf[0].guard, g0)
@@ -345,6 +384,17 @@ def reaches(I, t, target, depth=0):
             if items is not None and any(reaches(I, it[1] if it[0] == "v" else it[2], target, depth + 1) for it in items):
                 return True
     return False
+
+
+def subst_guarded_all(t):
+    """remove Undef alternatives everywhere in a term"""
+    from ..terms import rebuild
+    t = subst_guarded(t)
+    if isinstance(t, Op):
+        args = tuple(subst_guarded_all(a) for a in t.args)
+        if args != t.args:
+            return rebuild(t.op, args)
+    return t
 
 
 def strip_assume(g, g0):
